@@ -289,7 +289,9 @@ def d_separations(
         unit="pair",
         total=len(vertices) * (len(vertices) - 1) // 2,
     ):
-        for conditions in powerset(vertices - {a, b}, stop=max_conditions):
+        for conditions in powerset(
+            vertices - {a, b}, stop=None if max_conditions is None else max_conditions + 1
+        ):
             judgement = are_d_separated(graph, a, b, conditions=conditions)
             if judgement.separated:
                 yield judgement
